@@ -711,8 +711,10 @@ def is_filler(tok):
 
 
 def make_recipe(kindmode, seed):
-    """`<kind>.<mode>[.<e|s>[.<lo|hi|both>]]` + object seed -> Recipe"""
+    """`<kind>.<mode>[.<e|s>[.<lo|hi|both|inh>]]` + object seed -> Recipe"""
     kind, mode, spelling, cut = (kindmode.split(".") + [None, None])[:4]
+    if cut == "inh":        # parent-level qualifiers under the keys the children's exporters add (see G.make)
+        return G.make(kind, random.Random(seed), mode, spelling, None, inherit=True)
     return G.make(kind, random.Random(seed), mode, spelling, cut)
 
 
@@ -780,6 +782,22 @@ def isolated_history(kindmode, seed, tokens):
     return run_history(kindmode, seed, tokens, reference_answers(kindmode, seed, tokens))
 
 
+def isolated_line(tokens):
+    """a warm / args / lazy line, evaluated in a pristine forked child of the helper (in-process if there is no helper)"""
+    p = _server()
+    if p is not None:
+        try:
+            p.stdin.write(json.dumps({"line": tokens}) + "\n")
+            p.stdin.flush()
+            ans = json.loads(p.stdout.readline())
+            if "out" in ans:
+                return ans["out"]
+        except Exception:  # noqa
+            _SERVER["failed"] = True
+    from harness import impl_operands
+    return impl_operands.run_line(tokens)
+
+
 def _in_child(fn):
     """run fn() in a forked child, return its JSON-able result"""
     r, w = os.pipe()
@@ -810,6 +828,15 @@ def serve():
             req = json.loads(line)
         except ValueError:
             break
+        if "line" in req:       # warm / args / lazy lines (harness/impl_operands.py): one pristine child does it all
+            def one():
+                from harness import impl_operands
+                return guarded(lambda: impl_operands.run_line(req["line"]))
+            b = _in_child(one)
+            res = {"out": b["ok"]} if "ok" in b else {"out": "err! Harness:" + b["err"].replace(" ", "_")}
+            sys.stdout.write(json.dumps(res) + "\n")
+            sys.stdout.flush()
+            continue
         a = _in_child(lambda: reference_answers(req["km"], req["seed"], req["toks"]))
         if "ok" not in a:
             res = {"out": "err! Harness:" + a["err"].replace(" ", "_")}
@@ -1061,7 +1088,35 @@ def op_merge(t):
     return f"ok {_show_qdict(result)} {_show_qdict(feat.qualifiers)}"
 
 
-OPS = {"lru": op_lru, "plru": op_plru, "memo": op_memo, "lazyloc": op_lazyloc, "pstrand": op_pstrand,
+EXPORT_KEYS = {100: "protein_id", 101: "product"}        # the keys `CDSInterval.export_qualifiers` adds identifiers under
+
+
+def _kname(k):
+    return EXPORT_KEYS.get(k, f"k{k}")
+
+
+def _show_qdict_named(d):
+    back = {v: k for k, v in EXPORT_KEYS.items()}
+    items = sorted((back[k] if k in back else int(k[1:]), sorted(int(v[1:]) for v in vals)) for k, vals in d.items())
+    return f"{len(items)}" + "".join(f" {k} {len(v)}" + "".join(f" {x}" for x in v) for k, v in items)
+
+
+def op_export(t):
+    """`export <own> <other> <n> (key val){n}`: CDSInterval.export_qualifiers(parent_qualifiers=other); the (key, val) pairs
+    say which identifiers the CDS carries (100 protein_id, 101 product)"""
+    own, i = _parse_qdict(t, 1)
+    other, i = _parse_qdict(t, i)
+    n = int(t[i])
+    ids = {int(t[i + 1 + 2 * j]): int(t[i + 2 + 2 * j]) for j in range(n)}
+    cds = CDSInterval([0], [6], Strand.PLUS, [CDSFrame.ZERO],
+                      qualifiers={_kname(k): [f"v{v}" for v in vs] for k, vs in own},
+                      protein_id=f"v{ids[100]}" if 100 in ids else None, product=f"v{ids[101]}" if 101 in ids else None)
+    pq = {_kname(k): {f"v{v}" for v in vs} for k, vs in other}
+    result = cds.export_qualifiers(pq)
+    return f"ok {_show_qdict_named(result)} {_show_qdict_named(cds.qualifiers)} {_show_qdict_named(pq)}"
+
+
+OPS = {"export": op_export, "lru": op_lru, "plru": op_plru, "memo": op_memo, "lazyloc": op_lazyloc, "pstrand": op_pstrand,
        "cdshist": op_cdshist, "merge": op_merge}
 
 
@@ -1071,6 +1126,8 @@ def impl_history_op(line):
     def go():
         if t[0] == "hist":
             return isolated_history(t[1], int(t[2]), t[3:])
+        if t[0] in ("warm", "args", "lazy"):
+            return isolated_line(t)
         return OPS[t[0]](t)
     return guarded(go)
 
